@@ -31,18 +31,72 @@ def plan(tier, seed):
     n = 416 if tier == "quick" else 4000
     per = 26 if tier == "quick" else 125
     nops = 12 if tier == "quick" else 30
-    return [{"lo": lo, "hi": min(n, lo + per), "nops": nops} for lo in range(0, n, per)]
+    return [{"lo": lo, "hi": min(n, lo + per), "nops": nops} for lo in range(0, n, per)] + [{"kind": "extcase"}]
+
+
+def run_extcase(seed, acc):
+    """Directed: a loaded deck whose image / media members spell their extension in another case (image1.PNG, as other
+    producers write them; one Default covers every case of an extension) x a further part of that extension in the usual
+    spelling x save: the closure rules on the saved file, against the problems of the input."""
+    import io
+    from collections import Counter
+
+    import pptx
+    from vlib import env, gen, histories, opcx
+
+    rnd = env.rng("C02", "extcase", seed)
+    for fmt, ext, add in (("PNG", "png", "picture"), ("JPEG", "jpg", "picture"), ("PNG", "png", "placeholder"), (None, "mp4", "movie")):
+        for spelled in (ext.upper(), ext.capitalize()):
+            prs = pptx.Presentation()
+            s = prs.slides.add_slide(prs.slide_layouts[6])
+            if fmt:
+                s.shapes.add_picture(io.BytesIO(gen.png_bytes(rnd, fmt=fmt)), 0, 0)
+                old = "/ppt/media/image1.%s" % ext
+            else:
+                s.shapes.add_movie(io.BytesIO(b"movie one"), 0, 0, 914400, 914400, mime_type="video/mp4")
+                old = "/ppt/media/media1.mp4"
+            buf = io.BytesIO()
+            prs.save(buf)
+            data = histories.rename_members(buf.getvalue(), {old: old[: -len(ext)] + spelled})
+            pin = opcx.Pkg.from_bytes(data)
+            base = Counter(opcx.closure_problems(pin))
+            wit = {"extcase": [fmt, spelled, add], "seed": seed}
+            acc.case(key=env.khash(["extcase", fmt, spelled, add]), nontrivial=True, cls="start:extension-case")
+            try:
+                prs = pptx.Presentation(io.BytesIO(data))
+                s = prs.slides[0]
+                if add == "picture":
+                    s.shapes.add_picture(io.BytesIO(gen.png_bytes(rnd, fmt=fmt)), 0, 0)
+                elif add == "placeholder":
+                    s2 = prs.slides.add_slide(prs.slide_layouts[8])
+                    s2.placeholders[1].insert_picture(io.BytesIO(gen.png_bytes(rnd, fmt=fmt)))
+                else:
+                    s.shapes.add_movie(io.BytesIO(b"movie two"), 0, 0, 914400, 914400, mime_type="video/mp4")
+                out = io.BytesIO()
+                prs.save(out)
+            except Exception as e:  # noqa
+                acc.violation("extcase-raises:%s" % type(e).__name__, "deck with %s, then one more %s: %r" % (old[: -len(ext)] + spelled, add, e), wit)
+                continue
+            acc.count("saves_checked_for_closure")
+            for (rule, det), n in (Counter(opcx.closure_problems(opcx.Pkg.from_bytes(out.getvalue()))) - base).items():
+                acc.violation("closure:%s" % rule, "deck with %s, one more %s added: %s %s" % (old[: -len(ext)] + spelled, add, rule, det), wit)
 
 
 def run_unit(unit, tier, seed, acc):
     from vlib import histories
 
+    if unit.get("kind") == "extcase":
+        return run_extcase(seed, acc)
     histories.run_histories("pkg", {"C02"}, unit, tier, seed, acc, save_every=1)
 
 
 def replay(w, acc):
     from vlib import histories
 
+    if "extcase" in w:
+        run_extcase(w.get("seed", 0), acc)
+        print([(v["key"], v["what"][:300]) for v in acc.violations])
+        return
     w = dict(w, save_every=1)
     histories.replay_history(w, acc, {"C02"})
     print([(v["key"], v["what"][:300]) for v in acc.violations])
